@@ -22,7 +22,8 @@ EXPLANATION = ("Static analysis of system::transform and TransitionSystem::{get_
                "replace_anonymous_inputs_with_zero removes exactly the inputs it maps to a zero of their own type and substitutes in SingleStep mode.")
 ASSUMPTIONS = ["equivalence of rewritten functions is C01's concern", "name bookkeeping is not decided"]
 LEVEL_TEXT = ("Static field-coverage and provenance analysis derived from the type definitions: decides for every expression-carrying field of a transition system (including ones added later) that the "
-              "system-level transformation reads it and re-points it from its own old value, plus mode/argument wiring of the three entry points. Function equivalence itself is not decided.")
+              "system-level transformation reads it and re-points it from its own old value, plus mode/argument wiring of the three entry points. Function equivalence itself is not decided."
+              " The structural clauses about the rewrite rules themselves (C01: casts, dispatcher wiring, sibling branches, width preservation, commutative-helper discipline, unit/annihilator table, baa sibling agreement) are re-evaluated here because 'simplifying all expressions' applies those rules.")
 LEVEL_NOTE = "Structural necessary conditions of behaviour preservation; assumes the expression-level transform is meaning-preserving (C01)."
 TECHNIQUE = "type-derived field-coverage check + def-use provenance rules + presence truth tables (a field is yielded iff it is present) on rustc HIR facts"
 
@@ -257,6 +258,7 @@ def run(ctx, for_simplifier=False):
     c01.r015(ctx)
     c01.r016(ctx)
     c01.r017(ctx)
+    c01.shared_value_ops(ctx)
 
 
 def fmt(key):
